@@ -14,6 +14,7 @@
 //   NtpPacket::{mode,version}      -> ghost values (the packet is opaque to server.rs)
 //   NtpPacket::{nts_nak,deny,nts_deny,timestamp,nts_timestamp}_response -> recorders
 //   NtpPacket::serialize           -> model: Err, or Ok after advancing the cursor by n <= remaining
+#![cfg(feature = "verif-xrepo")] // compiled only in the transformed copy (needs the declared transforms)
 #![allow(unused_imports, dead_code, clippy::all)]
 use super::*;
 use crate::keyset::{DecodedServerCookie, KeySetProvider};
@@ -459,8 +460,10 @@ fn config_unchanged(c: &ServerConfig, s: &CfgSnap) -> bool {
         && c.accepted_versions.len() == s.n_versions
 }
 fn empty_keyset() -> Arc<KeySet> {
-    // header: time 0, id_offset 0, primary 0, len 0  (the keyset is only handed to stubbed callees)
-    let bytes = [0u8; 20];
+    // header: time 0, id_offset 0, primary 0, one all-zero key (the keyset is only handed to
+    // stubbed callees; a key file without keys is rejected by load)
+    let mut bytes = [0u8; 20 + 64];
+    bytes[19] = 1;
     let mut r: &[u8] = &bytes;
     KeySetProvider::load(&mut r, 0).unwrap().0.get()
 }
